@@ -5,3 +5,4 @@ pub mod mcx;
 pub mod leafnative;
 pub mod privx;
 pub mod wrapref;
+pub mod fixtures;
